@@ -14,9 +14,11 @@ import (
 	"math/big"
 	"net"
 	"net/url"
+	"os"
 	"regexp"
 	"runtime"
 	"sort"
+	"strconv"
 	"strings"
 	"sync"
 	"sync/atomic"
@@ -97,15 +99,22 @@ type gor struct {
 
 var gorHead = regexp.MustCompile(`^goroutine (\d+) \[([^\]]*)\]`)
 
+var (
+	dumpMu  sync.Mutex
+	dumpBuf = make([]byte, 1<<20) // reused: the collector is off while a case runs
+)
+
 func h2Goroutines() []gor {
-	buf := make([]byte, 1<<20)
+	dumpMu.Lock()
+	defer dumpMu.Unlock()
+	var buf []byte
 	for {
-		n := runtime.Stack(buf, true)
-		if n < len(buf) {
-			buf = buf[:n]
+		n := runtime.Stack(dumpBuf, true)
+		if n < len(dumpBuf) {
+			buf = dumpBuf[:n]
 			break
 		}
-		buf = make([]byte, 2*len(buf))
+		dumpBuf = make([]byte, 2*len(dumpBuf))
 	}
 	var out []gor
 	for _, blk := range strings.Split(string(buf), "\n\n") {
@@ -361,6 +370,7 @@ type session struct {
 	prefaced   bool   // the client has sent (something as) its preface
 	running    bool   // the good preface reached the server: the relays run
 	srvGotConn atomic.Bool
+	scInode    string // inode of the proxy's end of the upstream connection ("" = not identified)
 
 	ln        net.Listener
 	closing   chan bool
@@ -402,6 +412,36 @@ func baseline() map[string]bool {
 		m[g.id] = true
 	}
 	return m
+}
+
+// stable waits (bounded) until the session's goroutines have all come to rest — none running or
+// runnable, the same picture in three consecutive dumps — and returns that picture: a reader between
+// two iterations of its loop has no ReadFrame goroutine for a moment.
+func (s *session) stable() []gor {
+	var last string
+	same := 0
+	var gs []gor
+	end := time.Now().Add(500 * time.Millisecond)
+	for {
+		gs = s.mine()
+		busy := false
+		for _, g := range gs {
+			if g.state == "running" || g.state == "runnable" {
+				busy = true
+			}
+		}
+		k := kindsOf(gs)
+		if !busy && k == last {
+			same++
+		} else {
+			same = 0
+		}
+		last = k
+		if same >= 2 || time.Now().After(end) {
+			return gs
+		}
+		time.Sleep(time.Millisecond)
+	}
 }
 
 func (s *session) mine() []gor {
@@ -501,8 +541,68 @@ func begin(mode, variant string) (*session, error) {
 		if !waitFor(ioDeadline, func() bool { return s.srvGotConn.Load() }) {
 			return s, errors.New("the proxy did not dial the server")
 		}
+		s.scInode = dialledSocket(addr)
 	}
 	return s, nil
+}
+
+// dialledSocket finds, in this process, the socket connected TO addr (the proxy's end of the upstream
+// connection; the harness's own end is connected FROM it) and returns its inode.
+func dialledSocket(addr string) string {
+	_, portS, err := net.SplitHostPort(addr)
+	if err != nil {
+		return ""
+	}
+	port, _ := strconv.Atoi(portS)
+	b, err := os.ReadFile("/proc/self/net/tcp")
+	if err != nil {
+		return ""
+	}
+	want := fmt.Sprintf("0100007F:%04X", port)
+	found := ""
+	for _, l := range strings.Split(string(b), "\n")[1:] {
+		f := strings.Fields(l)
+		if len(f) < 10 || f[2] != want || f[1] == want {
+			continue
+		}
+		if f[9] != "0" && fdOpen(f[9]) {
+			if found != "" {
+				return "" // ambiguous
+			}
+			found = f[9]
+		}
+	}
+	return found
+}
+
+// fdOpen: some file descriptor of this process still refers to the socket with this inode.
+func fdOpen(inode string) bool {
+	es, err := os.ReadDir("/proc/self/fd")
+	if err != nil {
+		return true
+	}
+	want := "socket:[" + inode + "]"
+	for _, e := range es {
+		if t, err := os.Readlink("/proc/self/fd/" + e.Name()); err == nil && t == want {
+			return true
+		}
+	}
+	return false
+}
+
+// upstreamClosed: the proxy has closed its end of the upstream connection — seen directly (its file
+// descriptor is gone) or by the server (EOF / close on the accepted connection).
+func (s *session) upstreamClosed() bool {
+	if _, _, ended := s.sstat.get(); ended && !s.sReset {
+		return true
+	}
+	if s.scInode != "" {
+		return !fdOpen(s.scInode)
+	}
+	if s.sReset { // not identified: after a reset by the server itself nothing else can be observed
+		return s.isReturned()
+	}
+	return false
 }
 
 var wrongPreface = []byte("GET / HTTP/1.1\r\nHost: x\r\n\r\n")[:len(http2.ClientPreface)]
@@ -597,6 +697,7 @@ func (s *session) settings() error {
 	s.sstat.mu.Lock()
 	s.sstat.frames = 0
 	s.sstat.mu.Unlock()
+	s.stable()
 	return nil
 }
 
